@@ -12,10 +12,26 @@ import (
 
 // ---- C03: shot accounting of N instances over one provider ----
 
-func c03Run(nInst int, shared bool) {
+func c03Run(nInst int, shared bool) { c03RunShape(nInst, shared, false) }
+
+// composite: the shared profile is a list of three small parts (instances meet at part boundaries)
+func c03RunShape(nInst int, shared, composite bool) {
 	k := vConcretize(vNondetInt("k", 0, 2))
+	var parts [3]int64
+	if composite {
+		k = 0
+		for i := range parts {
+			parts[i] = vConcretize(vNondetInt("part", 0, 1))
+			k += parts[i]
+		}
+		vAssume(k >= 2)
+	}
 	m := int(vConcretize(vNondetInt("m", 0, 3)))
 	discard := vNondetBool("discardOverflow")
+	if composite {
+		vAssume(m >= 2 && !discard) // ammo binding or equal to the tokens; nothing discarded
+		vFreezeClock()
+	}
 	prov := newHProviderFilled(m)
 	aggr := &hAggregator{}
 	metrics := hMetrics()
@@ -24,6 +40,9 @@ func c03Run(nInst int, shared bool) {
 	var sharedSched core.Schedule
 	if shared {
 		sharedSched = schedule.NewOnce(k)
+		if composite {
+			sharedSched = schedule.NewComposite(schedule.NewOnce(parts[0]), schedule.NewOnce(parts[1]), schedule.NewOnce(parts[2]))
+		}
 	}
 	ctx := context.Background()
 	var wg sync.WaitGroup
@@ -78,6 +97,8 @@ func HarnessC03Shared1()      { c03Run(1, true) }
 func HarnessC03Shared2()      { c03Run(2, true) }
 func HarnessC03PerInstance2() { c03Run(2, false) }
 func HarnessC03Shared3()      { c03Run(3, true) }
+
+func HarnessC03SharedComposite2() { c03RunShape(2, true, true) }
 
 // A panicking Shoot still releases its ammo and turns into an instance error.
 func HarnessC03ShootPanic() {
